@@ -31,7 +31,7 @@ type c04Scn struct {
 	JoinMode  string        `json:"join_mode"` // burst | staggered
 	Ops       int           `json:"ops"`
 	Dur       time.Duration `json:"duration_ns"`
-	V6        bool          `json:"ipv6,omitempty"`               // members live on 16-byte addresses
+	V6        bool          `json:"ipv6,omitempty"`                // members live on 16-byte addresses
 	SlowState time.Duration `json:"slow_local_state_ns,omitempty"` // every other member's delegate takes this long in LocalState
 }
 
